@@ -219,7 +219,7 @@ def native_playback(mdir, g, test_names, tier_cfgs=(), timeout=900):
     cmd = ["cargo", "kani", "playback", "-Z", "concrete-playback"]
     if g.features:
         cmd += ["--features", ",".join(g.features)]
-    cmd += ["--", "kani_concrete_playback", "--test-threads", "1", "--nocapture"]
+    cmd += ["--"] + (list(test_names) if len(test_names) <= 4 else ["kani_concrete_playback"]) + ["--test-threads", "1", "--nocapture"]
     env = {"RUSTFLAGS": rustflags(g.cfgs + list(tier_cfgs) + ["verif_playback"]), "RUST_BACKTRACE": "0"}
     rc, out, wall, to = run_cmd(cmd, mdir, env=env, timeout=timeout, mem_gb=None)
     res = {}
